@@ -26,8 +26,14 @@ CLAIMED = {
         'text': ('Lean 4: instantiation appends an attribute-faithful copy of the template (atoms in template order, '
                  'template bonds between the copies), every fine node records exactly one instantiated coarse node, '
                  'membership sets are exactly {n | k in fragid n} and cover the graph, renumbering keeps membership/names. '
+                 'For EVERY step the resolver model can take (C02_step_cover: any base graph, templates with distinct keys and '
+                 'closed bonds, any recorded aromaticity answer): after a successful step every fine node records at least one '
+                 'coarse node, only base-graph nodes that have a fragment, and the coarse graph lists it under each of them — '
+                 'carried through bond creation, squashing (memberships concatenated, squash_fragok / squash_closed), the '
+                 'aromaticity patch, hydrogen completion (a new hydrogen has exactly its atom as first neighbour and takes its '
+                 'membership: invariant HInv over add_explicit_hydrogens, inheritH_fragok), sorting, stereo annotation, naming. '
                  'Model tied to the code by exact differential execution of every resolution step.'),
-        'note': RESOLVE_NOTE + 'Preservation of the copy through bonds/squash/hydrogens is validated by the oracle, not proved.',
+        'note': RESOLVE_NOTE + 'Membership/cover is proved through the whole step; that the heavy atoms of a coarse node remain an isomorphic copy of the template through bonds/squash/hydrogens is validated by the oracle, not proved.',
         'design': '§7 C02',
     },
     'C03': {
